@@ -970,7 +970,7 @@ def check_C18(seed: int, n: int) -> dict:
                                 client_streaming=("none", False, True)[i % 3])
             jobs.append(("random", (sc.roots_only() or sc) if i % 2 == 1 else sc, active, s ^ 0x5EED))
         for tag, sc in gen.edge_schemas():
-            if tag in ("feature-cover", "wkt-rpc", "typing-name-message", "builtin-shadow", "wkt-in-map", "cross-file-roots-only"):
+            if tag in ("feature-cover", "wkt-rpc", "typing-name-message", "builtin-shadow", "wkt-in-map", "cross-file-roots-only", "scale"):
                 jobs.append(("edge:" + tag, sc, active, seed))
         results = parallel(jobs, _c18_job)
         for job, res in zip(jobs, results):
@@ -1030,6 +1030,7 @@ def _c13_job(job) -> dict:
             return res
         mods = [gen.module_of(p) for p in packages]
         d = gen.run_child("refs", r.out_dir, {"modules": mods, "refs": refs, "rpc_refs": rpc_refs}, timeout=600)
+        res["early_touches"] = d.get("early_touches", {})
         if "child_error" in d or d.get("mode_error"):
             res["skip"] = ("harness-error", str(d.get("child_error") or d.get("mode_error")))
             return res
@@ -1187,7 +1188,11 @@ def check_C13(seed: int, n: int) -> dict:
         for k, mode, detail, text, style in sorted(raw, key=lambda x: (x[0], x[1] != "isolated", len(x[3]))):
             key = k if (mode == "isolated" or k in iso_keys or k.startswith("C13:alias-collision")) else k + ":only-with-other-references"
             col.fail(key, detail, text)
-        return col.result({"planned": planned, "references_checked": refs_checked,
+        early = {}
+        for res in results:
+            for k, v in (res or {}).get("early_touches", {}).items():
+                early[k] = early.get(k, 0) + v
+        return col.result({"planned": planned, "references_checked": refs_checked, "first_use_before_names_are_bound": early,
                            "complete_enumeration_depth<=3_over_{a,b}": planned["isolated"] == 225})
     finally:
         gen.cleanup_all()
@@ -1290,7 +1295,7 @@ def check_C11(seed: int, n: int) -> dict:
                 continue
             nserv += k
             jobs.append(("random", schema, s ^ 0xC11))
-        jobs += [("edge:" + tag, sc, seed ^ 0xC11) for tag, sc in gen.edge_schemas() if tag in ("feature-cover", "wkt-rpc")]
+        jobs += [("edge:" + tag, sc, seed ^ 0xC11) for tag, sc in gen.edge_schemas() if tag in ("feature-cover", "wkt-rpc", "scale")]
         # "every generated service": also the stubs / server bases generated under the other plugin options (the
         # deterministic service schemas under every configuration, the first random ones under the pydantic one)
         active = [c for c in CONFIGS if pydantic_available() or not c[0].endswith("pydantic")]
